@@ -76,6 +76,8 @@ def run_shard(spec, rec):
                                adversarial=0.45, read_ops=(h % 3 == 0),
                                judge=False, container=container)
             if stored:
+                ls.fault_conn = conn
+                ls.p_refuse = 0.05
                 state = {'stop': False}
 
                 def sweep_hook(ls_, op, args, conn=conn, state=state,
